@@ -2,7 +2,7 @@
    Statements only (copied from the lemma libraries); every proof is a bare
    `exact`; see the cited files in coq/proofs for the proofs. *)
 From Coq Require Import List NArith ZArith Bool Arith Sorting.Sorted Sorting.Permutation.
-From D2P Require Import Str Err Package Content BulletsFacts Lifecycle LifeFacts.
+From D2P Require Import Str Err Package Content BulletsFacts Lifecycle LifeFacts Xml Collector PyVal PyHeap SourceHeap SourceHeapViews SourceCaret SourceFresh SourceFresh2.
 Import ListNotations.
 
 (* for every state reached by any history on an unclosed object, every read returns the value a fresh object returns, whatever was read before *)
@@ -35,3 +35,64 @@ Theorem C14_read_twice :
   forall st2 out2, step a o fs (close st1) (OpRead at_) = (st2, out2) -> out2 = OVal.
 Proof. exact read_twice. Qed.
 Print Assumptions C14_read_twice.
+
+(* FRESH ON EVERY READ - about the source text (gen/SourceHeapViews.v: the views translated from the Python source with the heap embedding, lists live in a heap): X_runs = get_par_strings(X_pars) returns five levels of lists ALL allocated during the call, with (immutable) strings at the leaves, and modifies no heap cell that existed before the call - in particular not the collector's record tree *)
+Theorem C14_views_return_fresh_lists :
+  forall x h v h',
+  heap_ok h -> okv (length h) x = true ->
+  S_HV_get_par_strings x h = HOk v h' ->
+  extends h h' /\ fresh 5 (length h) h' v.
+Proof. exact hv_get_par_strings_fresh. Qed.
+Print Assumptions C14_views_return_fresh_lists.
+
+(* X = _join_runs(X_runs): four levels of new lists, strings at the leaves, nothing old modified *)
+Theorem C14_join_runs_returns_fresh_lists :
+  forall x h v h',
+  heap_ok h -> okv (length h) x = true ->
+  S_HV_join_runs x h = HOk v h' ->
+  extends h h' /\ fresh 4 (length h) h' v.
+Proof. exact hv_join_runs_fresh. Qed.
+Print Assumptions C14_join_runs_returns_fresh_lists.
+
+(* Par.run_strings returns a new list of strings on every access *)
+Theorem C14_run_strings_fresh :
+  forall p h v h',
+  S_HV_Par_run_strings p h = HOk v h' ->
+  extends h h' /\ fresh 1 (length h) h' v.
+Proof. exact hv_par_run_strings_fresh. Qed.
+Print Assumptions C14_run_strings_fresh.
+
+(* writing into any cell allocated by the call leaves every older cell as it was *)
+Theorem C14_mutating_a_result_is_harmless :
+  forall h h' a o b,
+  extends h h' -> (length h <= a)%nat -> (b < length h)%nat ->
+  h_get b (h_set a o h') = h_get b h.
+Proof. exact fresh_mutation_harmless. Qed.
+Print Assumptions C14_mutating_a_result_is_harmless.
+
+(* SO MUTATING A RETURNED VALUE NEVER CHANGES A LATER READ: after computing a view, and after ANY mutation of ANY cell the view allocated, the collector still represents exactly the same model state (rep of proofs/SourceCaret.v), from which every later read is computed *)
+Theorem C14_view_cannot_disturb_collector :
+  forall (leaf_of : pv -> option par) h self k x v h' a o,
+  rep leaf_of h self = Some k -> heap_ok h -> okv (length h) x = true ->
+  S_HV_get_par_strings x h = HOk v h' -> (length h <= a)%nat ->
+  rep leaf_of h' self = Some k /\ rep leaf_of (h_set a o h') self = Some k.
+Proof. exact get_par_strings_cannot_disturb_collector. Qed.
+Print Assumptions C14_view_cannot_disturb_collector.
+
+(* the same for _join_runs *)
+Theorem C14_join_runs_cannot_disturb_collector :
+  forall (leaf_of : pv -> option par) h self k x v h' a o,
+  rep leaf_of h self = Some k -> heap_ok h -> okv (length h) x = true ->
+  S_HV_join_runs x h = HOk v h' -> (length h <= a)%nat ->
+  rep leaf_of h' self = Some k /\ rep leaf_of (h_set a o h') self = Some k.
+Proof. exact join_runs_cannot_disturb_collector. Qed.
+Print Assumptions C14_join_runs_cannot_disturb_collector.
+
+(* the represented collector state depends only on the heap cells that existed when it was built *)
+Theorem C14_state_reads_only_its_heap :
+  forall (leaf_of : pv -> option par) h h2 self k,
+  rep leaf_of h self = Some k ->
+  (forall b, (b < length h)%nat -> h_get b h2 = h_get b h) ->
+  rep leaf_of h2 self = Some k.
+Proof. exact rep_only_reads_its_heap. Qed.
+Print Assumptions C14_state_reads_only_its_heap.
